@@ -308,7 +308,7 @@ func c03Gen() *rapid.Generator[c03Case] {
 		case "text", "walk", "walkiter":
 			c.Branch = genBranch().Draw(t, "branch")
 		case "mkdir":
-			c.Exts = genExts(f.Names()).Draw(t, "exts")
+			c.Exts = genExts(extSources(f)).Draw(t, "exts")
 		case "verify":
 			c.Strict = rapid.Bool().Draw(t, "strict")
 			c.Drop = rapid.SliceOfN(rapid.IntRange(0, tree.Count()-1), 0, 3).Draw(t, "drop")
@@ -562,7 +562,7 @@ func TestC03MdAliases(t *testing.T) {
 		if hasDupRoots(f) {
 			uniqRoots(f)
 		}
-		c := c03MdAlias{Forest: f, Op: rapid.SampledFrom([]string{"text", "json", "walk", "mkdir", "verify"}).Draw(rt, "op"), Exts: genExts(f.Names()).Draw(rt, "exts")}
+		c := c03MdAlias{Forest: f, Op: rapid.SampledFrom([]string{"text", "json", "walk", "mkdir", "verify"}).Draw(rt, "op"), Exts: genExts(extSources(f)).Draw(rt, "exts")}
 		col.eval(f.Count() >= 3, hash64(f.String(), c.Op, fmt.Sprint(c.Exts)), "op:"+c.Op)
 		col.sample(func() any { return c })
 		if msg := c03MdAliasCheck(c); msg != "" {
